@@ -87,7 +87,7 @@ func (s *Step) String() string {
 		}
 	case "lock":
 		fmt.Fprintf(&b, "(%s,ret=%v,chk=%v,onlyIfExists=%v,wait=%d)", strings.Join(s.Keys, ","), s.ReturnValues, s.CheckExistence, s.LockOnlyIfExists, s.WaitMs)
-	case "advance":
+	case "advance", "sleep":
 		fmt.Fprintf(&b, "(%dms)", s.Ms)
 	case "expire":
 		fmt.Fprintf(&b, "(for client %d)", s.Client)
@@ -217,6 +217,12 @@ func (w *World) Exec(s *Step) {
 		return
 	case "expire":
 		w.Cl.ExpireFor(s.Client)
+		return
+	case "sleep": // real time passes (tickers fire) and the virtual clock follows
+		time.Sleep(time.Duration(s.Ms) * time.Millisecond)
+		if w.Cl.Clock != nil {
+			w.Cl.Clock.Advance(time.Duration(s.Ms) * time.Millisecond)
+		}
 		return
 	case "split":
 		w.Cl.SplitAt(s.Keys[0])
@@ -479,7 +485,10 @@ func (w *World) Exec(s *Step) {
 	case "commit":
 		t.CommitStep[0] = w.StepNo
 		cctx := context.WithValue(ctx, util.SessionID, uint64(t.ID+1))
+		t.MaxTSOBeforeCommit = w.Cl.MaxIssued()
+		t.CommitCallEv = w.Cl.Trace.Event()
 		err := txn.Commit(cctx)
+		t.EndEv = w.Cl.Trace.Event()
 		w.StepNo++
 		t.CommitStep[1] = w.StepNo
 		t.Ended = "commit"
@@ -502,6 +511,7 @@ func (w *World) Exec(s *Step) {
 		}
 	case "rollback":
 		_ = txn.Rollback()
+		t.EndEv = w.Cl.Trace.Event()
 		t.Ended = "rollback"
 		if c.Net.Dead() {
 			t.Ended = "killed"
@@ -548,6 +558,7 @@ func (w *World) Finish() (*Truth, error) {
 			c := w.Cl.Clients[t.Client]
 			if !c.Net.Dead() {
 				_ = w.handles[id].Rollback()
+				t.EndEv = w.Cl.Trace.Event()
 				t.Ended = "rollback"
 			} else {
 				t.Ended = "killed"
